@@ -472,6 +472,11 @@ func (a *analysis) result() *result {
 	a.channelOps(res, remap)
 	a.checkThenAct(res, remap, acq)
 	a.writeAfterPublish(res)
+	var staleEsc []string
+	res.Esc, res.Summary.UnlistedEsc, staleEsc = a.guardedEscape()
+	res.Summary.EscRows = len(res.Esc)
+	res.StaleKnown = append(res.StaleKnown, staleEsc...)
+	res.Summary.StaleKnown = len(res.StaleKnown)
 
 	for f, es := range a.entry {
 		if len(es.locks) == 0 || a.funcs[f] == nil {
